@@ -22,6 +22,7 @@ def c05_runs(tier):
     mt = MTUS_T if tier == "thorough" else MTUS_Q
     runs = [("main", ["--mode", "closure"] + c) for c in cfgs(mt)]
     runs += [("main", ["--mode", "sweep", "--mtu", "1500", "--wifi", "0"])]
+    runs += [("main", ["--mode", "closure", "--b", "1", "--mtu", "1500", "--wifi", "0"])]      # three interfaces: frames on the other two interleave
     if tier == "thorough":
         runs += [("main", ["--mode", "sweep", "--mtu", "576", "--wifi", "1"])]
     return runs
@@ -36,6 +37,10 @@ def proto_runs(mode):
         runs = [("main", ["--mode", mode] + extra + c) for c in cfgs(mt)]
         if mode == "c09":               # a responder with two interfaces: frames on the other interface interleave with the history and the continuations
             runs += [("main", ["--mode", mode, "--a", "1", "--b", "1", "--mtu", "1500", "--wifi", "0"])]
+        if mode == "c02":               # every (service, opcode, sequence number, sender, destination) frame in 4 states
+            runs += [("main", ["--mode", mode, "--a", "4", "--mtu", "1500", "--wifi", "0"])]
+        if mode == "c03":               # every 16-bit generation / sequence number in 10 states per service
+            runs += [("main", ["--mode", mode, "--a", "3", "--mtu", "1500", "--wifi", "0"])]
         if mode in ("c02", "c03"):      # a platform whose machine name exceeds the 32 bytes a Hello may carry
             runs += [("main", ["--mode", mode, "--a", "2", "--mtu", "576", "--wifi", "1"])]
         if mode in ("c02", "c03"):      # the same closure on the responder's second interface
@@ -49,7 +54,12 @@ def obs_runs(mode):
         mt = sorted(set(MTUS_MOD20 + [1500] + ([1492, 9216] + list(range(1480, 1500)) if tier == "thorough" else [])))
         if mode == "c07":
             mt = sorted(set(mt + [1534, 9216]))          # jumbo frames: more than 74 observations fit one QueryResp
-        return [("main", ["--mode", mode, "--mtu", str(m), "--wifi", "0"]) for m in mt]
+        runs = [("main", ["--mode", mode, "--mtu", str(m), "--wifi", "0"]) for m in mt]
+        if mode == "c07":            # three interfaces: frames on the other two interleave (MTU 576: the smallest capacity)
+            runs += [("main", ["--mode", "c07", "--mtu", "576", "--wifi", "0", "--b", "1", "--a", "40"])]
+        if mode == "c07":            # every sequence number of a Query
+            runs += [("main", ["--mode", "c07v", "--mtu", str(m), "--wifi", "0"]) for m in ((576, 1500) if tier == "thorough" else (576,))]
+        return runs
     return f
 
 
@@ -60,7 +70,7 @@ def c06_runs(tier):
 
 def c10_runs(tier):
     mt = [576, 1500] if tier == "thorough" else [1500]
-    return [("main", ["--mode", "c10", "--mtu", str(m), "--wifi", "0", "--a", str(a)]) for m in mt for a in (0, 1, 2)] + [("main", ["--mode", "c10flood"])]
+    return [("main", ["--mode", "c10", "--mtu", str(m), "--wifi", "0", "--a", str(a)]) for m in mt for a in (0, 1, 2, 3)] + [("main", ["--mode", "c10flood"])]
 
 
 def c13_runs(tier):
@@ -94,7 +104,7 @@ def c16_runs(tier):
 def c12_runs(tier):
     th = tier == "thorough"
     runs = []
-    for b in (0, 1, 2):
+    for b in (0, 1, 2, 3):
         runs.append(("main", ["--mode", "narrow", "--depth", "14" if th else "11", "--b", str(b)]))
         runs.append(("main", ["--mode", "flow", "--depth", "12" if th else "10", "--b", str(b)]))
     runs.append(("main", ["--mode", "map", "--depth", "12" if th else "9"]))
@@ -110,12 +120,12 @@ def c12_post(configs):
     by = {}
     for c in configs:
         args = c["args"].split()
-        if "--b" in args and args[args.index("--b") + 1] in ("0", "1"):
+        if "--b" in args and args[args.index("--b") + 1] in ("0", "1", "3"):
             i = args.index("--b")
             key = " ".join(args[:i] + args[i + 2:])
             by.setdefault(key, []).append(c["extra"].get("origin_signature"))
     for k, sigs in by.items():
-        if len(sigs) == 2 and sigs[0] != sigs[1] and not any(c.get("cap") in ("deadline", "stopped-after-violation") for c in configs):
+        if len(sigs) >= 2 and len(set(sigs)) > 1 and not any(c.get("cap") in ("deadline", "stopped-after-violation") for c in configs):
             out.append(("time-translation-variance", "run [%s] differs between clock origins: %s vs %s" % (k, sigs[0], sigs[1])))
     return out
 
@@ -199,7 +209,7 @@ def c17_runs(tier):
 
 
 EMIT = {"main": {"sources": MC + ["checks/emit.c"], "modes": ["c06", "c10", "c10flood"]}}
-OBS = {"main": {"sources": MC + ["checks/obs.c"], "modes": ["c07", "c19", "c19pump", "c19multi", "c02o"]},
+OBS = {"main": {"sources": MC + ["checks/obs.c"], "modes": ["c07", "c07v", "c19", "c19pump", "c19multi", "c02o"]},
        "proto": {"sources": MC + ["checks/proto.c"], "modes": ["c19p"]}}
 
 
@@ -321,7 +331,7 @@ PROPS = {
         "builds": EMIT, "runs": c06_runs, "level": "model_checking",
         "technique": "explicit-state BFS to fixpoint over session states; in every reachable state with a definite mapper an exhaustive Emit family (all descriptor tuples n<=2, n=3 and every n up to the frame capacity in one representative state per mapper class, over-declared counts) is executed and the ordered port-call log compared with the descriptor list",
         "assumptions": ["descriptor kinds outside {Probe, Train} are outside the property's domain",
-                        "heavy families (n=3 tuples, all n, position sweeps) run once per (mapper, apparent address) class, the n<=2 tuples in every state"],
+                        "heavy families (n=3 tuples, all n, position sweeps, every non-zero 16-bit sequence number) run once per (mapper, apparent address) class, the n<=2 tuples in every state"],
     },
     "C10": {
         "builds": EMIT, "runs": c10_runs, "level": "model_checking",
